@@ -88,6 +88,9 @@ func (r *c18Run) sweepCases() (text, native, ops, simple []*c18Case) {
 			for mode, op := range []string{"G", "H", "A", "W", "R"} {
 				ops = append(ops, &c18Case{Family: "ops", Doc: w(doc), Sweep: true, Cell: "one-op", Ops: []c18Op{{Op: op, Path: pw, Mode: (mode % 4) + 8*(len(pw)%2)}}})
 			}
+			if p.definite() {
+				ops = append(ops, &c18Case{Family: "ops", Doc: w(doc), Sweep: true, Cell: "one-op", Ops: []c18Op{{Op: "N", Path: pw, Mode: len(pw) % 4}}})
+			}
 			for vi, v := range setVals {
 				if p.hasDescent() && (v.kind == 'a' || v.kind == 'o') {
 					continue // see genOp: the walk of a descent enters the placed value
